@@ -360,6 +360,9 @@ def gen_childreg(rng):
     (post-fork reset), receives signals again.  API calls are made from timer handlers (never from idle stimuli,
     which run inside the kernel wait)."""
     nint = rng.randint(1, 4)
+    # the signal numbers: usually the two ordinary ones, in 40 % of the cases numbers at the edges of the per-signal bookkeeping (the
+    # post-fork reset walks over ALL signal numbers: 1, the real-time range, the highest valid one)
+    SIGS = [10, 12] if rng.random() < 0.6 else rng.choice([[64, 10], [1, 64], [63, 64], [34, 12], [64, 64]])
     lines = [f"cfg seed={rng.randrange(1, 1 << 30)}", "thread 0"]
     regs = []
     for i in range(nint):
@@ -373,10 +376,10 @@ def gen_childreg(rng):
     lines.append("do " + " ; ".join(regs + ["trel t0 1000"]))
     lines.append("main")
     lines.append(f"at 0 : deliver {rng.choice(SIGS)}")
-    lines.append("on t0 1 : setpid 2 ; deliver 10 ; deliver 12 ; yield ; trel t0 1000")
+    lines.append(f"on t0 1 : setpid 2 ; deliver {SIGS[0]} ; deliver {SIGS[1]} ; yield ; trel t0 1000")
     lines.append(f"on t0 2 : deliver {rng.choice(SIGS)} ; yield ; sigreg s5" + (" ; sigreg s6" if rng.random() < 0.5 else "") + " ; trel t0 1000")
     lines.append(f"on t0 3 : deliver {s5} ; yield ; trel t0 1000")
-    lines.append("on t0 4 : deliver 10 ; deliver 12 ; yield ; trel t0 1000")
+    lines.append(f"on t0 4 : deliver {SIGS[0]} ; deliver {SIGS[1]} ; yield ; trel t0 1000")
     lines.append(f"on t0 5 : sigunreg s5 ; deliver {s5} ; yield")
     lines.append(f"idle 0 : deliver {rng.choice(SIGS)}")
     return lines
